@@ -3,6 +3,8 @@
   Property theorems only; helper lemmas live in LibfiveProofs/TapePush.lean.
 -/
 import LibfiveProofs.TapePush
+import LibfiveProofs.IntervalKeep
+import LibfiveProofs.Interval3
 
 namespace Libfive.C05
 
@@ -134,6 +136,56 @@ theorem pointKeep_sound (ev : Op → α → α → α) (orc : Nat → α) (lt : 
           by_cases h3 : lt (evalList ev orc t v c.a) (evalList ev orc t v c.b) = true <;> simp [h3] at hk
       · simp [h4] at hk
 
+/-! ### the interval caller (joins C02 and C05) -/
+
+section interval
+open Libfive.Ivl
+variable {K : Type} [Field K] [LinearOrder K] [IsStrictOrderedRing K] [FloorRing K]
+variable {Bo : BoostOps K} {P : PointFns K}
+
+/-- **intervalKeep_sound.**  The keep function of `IntervalEvaluator::push` (as repaired by
+    c73cfff: `KEEP_B` only when neither operand may be NaN), computed from interval slots `I`, is
+    sound at EVERY point whose slot values those intervals enclose (`enclS`: NaN only where
+    flagged, non-NaN values inside the bounds) — including points where sub-expressions are NaN. -/
+theorem intervalKeep_sound (pev : Op → FVal K → FVal K → FVal K)
+    (hmin : ∀ a b, pev Op.min a b = pmin a b) (hmax : ∀ a b, pev Op.max a b = pmax a b)
+    (porc : Nat → FVal K) (t : List Clause) (v0 : Nat → FVal K) (hwf : WF t)
+    (I : Nat → IVal K) (henc : ∀ s, enclS (I s) (evalList pev porc t v0 s)) :
+    KeepSound (evalList pev porc t v0)
+      (intervalKeep FVal.lt (fun s => (I s).lo) (fun s => (I s).hi) (fun s => !(I s).mn)) t :=
+  intervalKeep_keepSound pev hmin hmax porc t v0 hwf I henc
+
+/-- **interval_push_sound (end to end).**  Interval evaluation of a well-formed tape over leaf
+    intervals `I0` (a box, constants, variables) followed by `push`: for EVERY assignment `v0` of
+    point values to the leaves enclosed by `I0` (every point of the box), the specialised tape
+    evaluates to the same root value as the full tape.  Hypotheses: Boost's primitive contracts
+    (`BoostSound` …, as in C02), the `pow`/`nth_root` side condition `SafeTape` (`True` for all other
+    opcodes), and the point kernel `pev` is one admitted by `PointRel`. -/
+theorem interval_push_sound (hS : BoostSound Bo P) (hA2 : Atan2Sound Bo P) (hM : ModSound Bo P)
+    (pev : Op → FVal K → FVal K → FVal K) (hpev : ∀ op a b, PointRel P op a b (pev op a b))
+    (iorc : Nat → IVal K) (porc : Nat → FVal K) (horc : ∀ k, enclS (iorc k) (porc k))
+    (T : TapeM) (hwf : WF T.t) (I0 : Nat → IVal K) (hsafe : SafeTape Bo P iorc T.t I0)
+    (v0 : Nat → FVal K) (hleaf : ∀ s, enclS (I0 s) (v0 s)) :
+    let I := ievalList Bo iorc T.t I0
+    let keep := intervalKeep FVal.lt (fun s => (I s).lo) (fun s => (I s).hi) (fun s => !(I s).mn)
+    evalList pev porc (T.push keep).t v0 (T.push keep).root = evalList pev porc T.t v0 T.root := by
+  intro I keep
+  have henc := tape_enclS hS hA2 hM pev hpev iorc porc horc T.t I0 v0 hleaf hsafe
+  have hmin : ∀ a b, pev Op.min a b = pmin a b := by
+    intro a b
+    rcases hpev Op.min a b with h | ⟨h, _⟩ | ⟨h, _⟩ | ⟨h, _⟩
+    · simpa [pointOp] using h
+    all_goals cases h
+  have hmax : ∀ a b, pev Op.max a b = pmax a b := by
+    intro a b
+    rcases hpev Op.max a b with h | ⟨h, _⟩ | ⟨h, _⟩ | ⟨h, _⟩
+    · simpa [pointOp] using h
+    all_goals cases h
+  exact push_sound pev porc T keep v0 hwf
+    (intervalKeep_keepSound pev hmin hmax porc T.t v0 hwf I henc)
+
+end interval
+
 /-- **getBase_sound.** The tape returned for a query is a suffix of the push chain (an ancestor or
     the tape itself) and is either the base tape or an INTERVAL tape whose own region contains the
     query — the region on which, by `push_sound_on`, it agrees with the full expression. -/
@@ -181,5 +233,21 @@ example : (exTape.push (pointKeep (fun a b => decide (a < b)) (evalList exEv (fu
 example : (exTape.push (pointKeep (fun a b => decide (a < b)) (evalList exEv (fun _ => 0) exTape.t exV))).root = 4 := by
   decide
 example : evalList exEv (fun _ => 0) exTape.t exV exTape.root = 3 := by decide
+
+/-! the interval keep function really decides: `max(x, y)` with `x ∈ [0,1]`, `y ∈ [2,3]` keeps `y` when
+    both operands are NaN-free, both when `x` may be NaN; `min` over the same slots keeps `x`
+    either way (the point kernel returns its first operand on NaN) -/
+section
+open Libfive.Ivl
+def exI (xNan : Bool) : Nat → IVal ℚ := fun s =>
+  if s = 4 then ⟨.fin 0, .fin 1, xNan⟩ else if s = 5 then ⟨.fin 2, .fin 3, false⟩ else ⟨.fin 0, .fin 0, false⟩
+def exKeep (xNan : Bool) (c : Clause) : Keep :=
+  intervalKeep FVal.lt (fun s => (exI xNan s).lo) (fun s => (exI xNan s).hi) (fun s => !(exI xNan s).mn) c
+example : exKeep false ⟨Op.max, 1, 4, 5⟩ = Keep.b := by decide +kernel
+example : exKeep true ⟨Op.max, 1, 4, 5⟩ = Keep.both := by decide +kernel
+example : exKeep true ⟨Op.min, 1, 4, 5⟩ = Keep.a := by decide +kernel
+example : exKeep false ⟨Op.min, 1, 5, 4⟩ = Keep.b := by decide +kernel
+example : exKeep true ⟨Op.min, 1, 5, 4⟩ = Keep.both := by decide +kernel
+end
 
 end Libfive.C05
